@@ -85,17 +85,18 @@ From Coq Require Import ZArith.
 From MV Require Import CredFun CredPipe.
 From MV.gen Require Import GenCredFun.
 Theorem C09_source_decode_control : forall (S : Type) (ops : pipe_ops S) (s : S),
-  src_dec_process_msg ops s = pipe_control ops dec_stage_order soft_err true s.
+  src_dec_process_msg ops s = pipe_control ops dec_stage_order soft_err (Some "is_replay_new"%string) s.
 Proof. exact src_dec_process_msg_is_pipe. Qed.
 Print Assumptions C09_source_decode_control.
 Theorem C09_source_encode_control : forall (S : Type) (ops : pipe_ops S) (s : S),
-  src_enc_process_msg ops s = pipe_control ops enc_stage_order (fun _ => false) false s.
+  src_enc_process_msg ops s = pipe_control ops enc_stage_order (fun _ => false) None s.
 Proof. exact src_enc_process_msg_is_pipe. Qed.
 Print Assumptions C09_source_encode_control.
 (* over abstract stage outcomes: which stages ran, and the reply is sanitised exactly for a failure whose code is not
    expired / rewound / replayed *)
-Theorem C09_source_decode_outcomes : forall (fail : string -> option N) (send_ok : bool),
-  src_dec_process_msg (trace_ops fail send_ok) t0 = outcomes dec_stage_order soft_err true fail send_ok.
+Theorem C09_source_decode_outcomes : forall (fail : string -> option N) (added send_ok : bool),
+  src_dec_process_msg (trace_ops fail added send_ok) t0 =
+  outcomes dec_stage_order soft_err (Some "is_replay_new"%string) fail added send_ok.
 Proof. exact src_dec_outcomes. Qed.
 Print Assumptions C09_source_decode_outcomes.
 Theorem C09_source_pipeline_is_model :
@@ -105,6 +106,6 @@ Theorem C09_source_pipeline_is_model :
   let '(rc, s) := src_dec_process_msg (dec_ops hmac sha1 blk_dec zdecomp cf mem pu pg now send_ok) (dinit m rs) in
   let '(r, rs', k) := dec_process hmac sha1 blk_dec zdecomp cf mem rs m pu pg now in
   d_msg s = r /\ d_rs s = (if send_ok then rs' else dec_rollback rs' k) /\
-  rc = (if send_ok then match k with Some _ => 0 | None => -1 end else -1)%Z.
+  rc = (if send_ok && dec_accepts hmac sha1 blk_dec zdecomp cf mem pu pg now rs m then 0 else -1)%Z.
 Proof. exact dec_process_is_source. Qed.
 Print Assumptions C09_source_pipeline_is_model.
